@@ -616,6 +616,29 @@ func (ex *explorer) common(o Outcome, p *pstate, mode string, b int, res *procRe
 				Witness: p.witness() + in, XState: m.StateString(p.x), YState: p.y.String()})
 		}
 	}
+	for _, n := range o.Notes {
+		if strings.HasPrefix(n, "scratch-append-stale:") {
+			parts := strings.SplitN(n, ":", 3)
+			res.dis = append(res.dis, Disagreement{Kind: "stale-scratch", Mode: mode, Byte: byteDesc(b), Detail: "bytes are appended to scratch buffer " + parts[1] + " whose previous content was already consumed (or is left over from an earlier call) and not truncated: the next token gets a stale prefix",
+				Witness: p.witness() + in, XState: m.StateString(p.x), YState: p.y.String(), Pos: parts[2]})
+		}
+	}
+	if b == '\n' && o.Kind == "next" && len(m.posFields) > 0 {
+		for f := range m.posFields {
+			if !o.Assigned[f] {
+				res.dis = append(res.dis, Disagreement{Kind: "newline-unrecorded", Mode: mode, Byte: byteDesc(b), Detail: "a newline is consumed without updating position field " + f + ": later errors report the wrong line/column",
+					Witness: p.witness() + in, XState: m.StateString(p.x), YState: p.y.String()})
+			}
+		}
+	}
+	if o.Kind == "next" {
+		for _, it := range o.Items {
+			if (it.Rep == '+' || it.Rep == '*') && it.Set['\n'] && len(m.posFields) > 0 {
+				res.dis = append(res.dis, Disagreement{Kind: "newline-unrecorded", Mode: mode, Byte: byteDesc(b), Detail: "a look-ahead scan can consume newline bytes without position bookkeeping",
+					Witness: p.witness() + in, XState: m.StateString(p.x), YState: p.y.String()})
+			}
+		}
+	}
 	if len(o.ReadStale) > 0 {
 		res.dis = append(res.dis, Disagreement{Kind: "use-before-def", Mode: mode, Byte: byteDesc(b), Detail: "state left over from a previous call is read before being written: " + o.ReadStale[0],
 			Witness: p.witness() + in, XState: m.StateString(p.x), YState: p.y.String()})
